@@ -406,7 +406,7 @@ def unquoteQuery(query):
                 parts.append(u"{0}={1}".format(key, str(val)))
             else:
                 key = part
-                parts.append[part]
+                parts.append(part)
     query = '&'.join(parts)
     return query
 
